@@ -32,11 +32,17 @@ func b2i(b bool) int {
 }
 
 func safeRun(c clientCase) (e *engine, err error) {
-	if perr := pbt.Safely(func() { e, err = runHistory(c) }); perr != nil {
-		return e, perr
-	}
+	// a history of at most a few dozen steps takes milliseconds; if it does not come back, a call into the
+	// client never returned (every wait inside the engine has its own, shorter bound)
+	gerr := guardDeadlock(180*time.Second, "client history", func() error {
+		if perr := pbt.Safely(func() { e, err = runHistory(c) }); perr != nil {
+			return perr
+		}
 
-	return e, err
+		return err
+	})
+
+	return e, gerr
 }
 
 func c10Notes(rec *evid.Rec) {
